@@ -39,8 +39,8 @@ import (
 	codectypes "github.com/cosmos/cosmos-sdk/codec/types"
 	"github.com/cosmos/cosmos-sdk/crypto/keys/ed25519"
 	"github.com/cosmos/cosmos-sdk/crypto/keys/secp256k1"
-	"github.com/cosmos/cosmos-sdk/testutil/sims"
 	storetypes "github.com/cosmos/cosmos-sdk/store/types"
+	"github.com/cosmos/cosmos-sdk/testutil/sims"
 	sdk "github.com/cosmos/cosmos-sdk/types"
 	authtypes "github.com/cosmos/cosmos-sdk/x/auth/types"
 	"github.com/cosmos/cosmos-sdk/x/authz"
@@ -299,17 +299,17 @@ type prevote struct {
 }
 
 type replica struct {
-	w         *world
-	c         *Chain
-	pending   map[int]*prevote
-	contracts []gethcommon.Address
+	w           *world
+	c           *Chain
+	pending     map[int]*prevote
+	contracts   []gethcommon.Address
 	nProposals  int
-	pcContracts []int // indices of contracts whose runtime ends with a precompile call
-	shapes    [][2]int // (slots, targets) of contracts
-	funtokens map[int]gethcommon.Address
-	tfDenoms  []string
-	tfOwner   []int
-	granted   map[[2]int]bool
+	pcContracts []int    // indices of contracts whose runtime ends with a precompile call
+	shapes      [][2]int // (slots, targets) of contracts
+	funtokens   map[int]gethcommon.Address
+	tfDenoms    []string
+	tfOwner     []int
+	granted     map[[2]int]bool
 }
 
 func (w *world) newReplica() *replica {
@@ -354,10 +354,12 @@ func multiRuntime(s, m int, pc bool) []byte {
 		// copy calldata[64:] to memory and CALL the FunToken precompile (0x…0800) with it; the result flag goes to slot 99.
 		// The precompile call makes the StateDB flush everything dirtied so far (the m fresh accounts) in an
 		// INTERMEDIATE commit before the final one.
-		b = append(b, 0x36, 0x60, 0x40, 0x90, 0x03) // size = CALLDATASIZE - 64
-		b = append(b, 0x80, 0x60, 0x40, 0x60, 0x00, 0x37) // CALLDATACOPY(0, 64, size)
+		b = append(b, 0x36, 0x60, 0x40, 0x90, 0x03)                                                       // size = CALLDATASIZE - 64
+		b = append(b, 0x80, 0x60, 0x40, 0x60, 0x00, 0x37)                                                 // CALLDATACOPY(0, 64, size)
 		b = append(b, 0x60, 0x00, 0x60, 0x00, 0x82, 0x60, 0x00, 0x60, 0x00, 0x61, 0x08, 0x00, 0x5a, 0xf1) // CALL(gas, 0x800, 0, 0, size, 0, 0)
-		b = append(b, 0x60, 0x63, 0x55, 0x50) // SSTORE(99, ok); POP size
+		b = append(b, 0x60, 0x63, 0x55, 0x50)                                                             // SSTORE(99, ok); POP size
+		// RETURN(returndata of the precompile call): it becomes the tx's return data inside ResponseDeliverTx.Data
+		b = append(b, 0x3d, 0x60, 0x00, 0x60, 0x00, 0x3e, 0x3d, 0x60, 0x00, 0xf3)
 	}
 	return append(b, 0x00)
 }
@@ -380,6 +382,54 @@ func freshAddr(id int) sdk.AccAddress {
 	b[0] = 0xF0
 	binary.BigEndian.PutUint32(b[16:], uint32(id))
 	return sdk.AccAddress(b[:])
+}
+
+// rawPrecompileInput builds hostile calldata for precompile `which` (0 FunToken, 1 Oracle, 2 Wasm):
+//
+//	variant 0 unknown 4-byte selector + a word      1 unknown selector alone     2 truncated (0..3 bytes)
+//	variant 3 valid selector, no arguments          4 valid selector, arguments cut short
+//	variant 5 valid selector, garbage arguments     6 valid selector, huge offsets      7 as 0, with value attached
+func (w *world) rawPrecompileInput(which, variant int, l []int) (gethcommon.Address, []byte) {
+	addrs := []gethcommon.Address{precompile.PrecompileAddr_FunToken, precompile.PrecompileAddr_Oracle, precompile.PrecompileAddr_Wasm}
+	abis := []*gethabi.ABI{embeds.SmartContract_FunToken.ABI, embeds.SmartContract_Oracle.ABI, embeds.SmartContract_Wasm.ABI}
+	which = ((which % 3) + 3) % 3
+	a := abis[which]
+	x := 0
+	if len(l) > 0 {
+		x = l[0]
+	}
+	var names []string
+	for n := range a.Methods {
+		names = append(names, n)
+	}
+	sort.Strings(names)
+	m := a.Methods[names[x%len(names)]]
+	unknown := []byte{0xde, 0xad, byte(x), byte(x >> 8)}
+	var in []byte
+	switch ((variant % 8) + 8) % 8 {
+	case 0, 7:
+		in = append(unknown, word(uint64(x))...)
+	case 1:
+		in = unknown
+	case 2:
+		in = unknown[:x%4]
+	case 3:
+		in = append([]byte{}, m.ID...)
+	case 4:
+		in = append(append([]byte{}, m.ID...), word(uint64(x))[:20]...)
+	case 5:
+		in = append([]byte{}, m.ID...)
+		for j := 0; j < 4+x%5; j++ {
+			h := sha256.Sum256([]byte(fmt.Sprintf("garbage-%d-%d", x, j)))
+			in = append(in, h[:]...)
+		}
+	case 6:
+		in = append([]byte{}, m.ID...)
+		for j := 0; j < 3; j++ {
+			in = append(in, bytes.Repeat([]byte{0xff}, 32)...)
+		}
+	}
+	return addrs[which], in
 }
 
 func (r *replica) apply(op c01Op) []abci.ResponseDeliverTx {
@@ -423,6 +473,14 @@ func (r *replica) apply(op c01Op) []abci.ResponseDeliverTx {
 			}
 		}
 		return one(res)
+	case "pcraw": // EOA -> precompile DIRECTLY with unknown selector / truncated / malformed calldata
+		i := op.A % nEth
+		to, input := r.w.rawPrecompileInput(op.B, op.C, op.L)
+		var val *big.Int
+		if op.C%8 == 7 {
+			val = big.NewInt(1_000_000_000_000)
+		}
+		return one(r.ethTx(i, &to, val, input, 1_500_000))
 	case "callpc": // ONE tx: pay m fresh accounts, THEN a successful Nibiru precompile call
 		if len(r.pcContracts) == 0 {
 			return none
@@ -439,12 +497,24 @@ func (r *replica) apply(op c01Op) []abci.ResponseDeliverTx {
 		if len(op.L) > 0 {
 			sel = op.L[0]
 		}
+		if sel >= 3 { // the inner precompile call FAILS (unknown selector, truncated, bad args): contract goes on
+			_, pcIn = w.rawPrecompileInput(0, sel-3, op.L)
+		}
 		switch sel % 3 {
 		case 0:
+			if sel >= 3 {
+				break
+			}
 			pcIn, err = embeds.SmartContract_FunToken.ABI.Pack("whoAmI", w.eths[i].EthAddr.Hex())
 		case 1:
+			if sel >= 3 {
+				break
+			}
 			pcIn, err = embeds.SmartContract_FunToken.ABI.Pack("bankBalance", w.eths[i].EthAddr, "unibi")
 		default:
+			if sel >= 3 {
+				break
+			}
 			pcIn, err = embeds.SmartContract_FunToken.ABI.Pack("whoAmI", accAddr(w.users[0]).String())
 		}
 		if err != nil {
@@ -779,9 +849,9 @@ func (r *replica) storeDigests() map[string]string {
 const nReplicas = 3
 
 type diffObs struct {
-	Replicas [][]int  `json:"replicas"` // per replica: id of the block digest, per block
-	Differs  []string `json:"differs"`  // which observable / module stores differ at the first differing block
-	Kinds    map[string]int `json:"kinds"` // replica 0: delivered txs per op kind and outcome (input distribution only)
+	Replicas [][]int        `json:"replicas"` // per replica: id of the block digest, per block
+	Differs  []string       `json:"differs"`  // which observable / module stores differ at the first differing block
+	Kinds    map[string]int `json:"kinds"`    // replica 0: delivered txs per op kind and outcome (input distribution only)
 	NTx      int            `json:"ntx"`
 	NValUpd  int            `json:"nvalupd"` // blocks with a non-empty validator update (replica 0)
 	Child    bool           `json:"child"`   // the last row of Replicas comes from a separate process
@@ -970,6 +1040,13 @@ func genDiff(r *Rng, opener int) c01Input {
 		if opener == 4 && b == 4 {
 			blk.Ops = append(blk.Ops, c01Op{Kind: "govparams", A: 0, B: 1, L: []int{3, 1, 4, 1, 5, 2, 6, 5, 3}}, c01Op{Kind: "govparams", A: 1, B: 2, L: []int{2, 0, 1, 2, 0, 1, 2, 0}})
 		}
+		if opener == 5 && b < 6 {
+			// unknown selectors / truncated / malformed calldata straight at each precompile
+			for which := 0; which < 3; which++ {
+				blk.Ops = append(blk.Ops, c01Op{Kind: "pcraw", A: which, B: which, C: (b + which) % 8, L: []int{17*b + which}})
+			}
+			blk.Ops = append(blk.Ops, c01Op{Kind: "pcraw", A: b, B: b, C: 0, L: []int{b}})
+		}
 		if opener == 3 && b == 0 {
 			blk.Ops = append(blk.Ops, c01Op{Kind: "deploy", A: 0, B: 2, C: 10, L: []int{1}})
 		}
@@ -998,6 +1075,15 @@ func genDiff(r *Rng, opener int) c01Input {
 					l = append(l, l[r.Intn(len(l))])
 				}
 				return l
+			}
+			if r.Chance(1, 7) {
+				// hostile calldata sent straight to a precompile (the VM error travels in ResponseDeliverTx.Data)
+				blk.Ops = append(blk.Ops, c01Op{Kind: "pcraw", A: r.Intn(nEth), B: r.Intn(3), C: r.Intn(8), L: []int{r.Intn(200)}})
+				continue
+			}
+			if r.Chance(1, 25) {
+				blk.Ops = append(blk.Ops, c01Op{Kind: "callpc", A: r.Intn(200), B: r.Intn(4), C: next() * 16, L: []int{3 + r.Intn(8), r.Intn(200)}})
+				continue
 			}
 			switch r.Pick(30, 3, 1, 2, 2, 1, 2) {
 			case 1:
@@ -1366,7 +1452,7 @@ func TestC01(t *testing.T) {
 	rng := NewRng(cfg.Seed)
 	for i := 0; i < cfg.N; i++ {
 		opener := 0
-		if i < 4 {
+		if i < 5 {
 			opener = i + 1
 		}
 		in := genDiff(rng.Fork(), opener)
